@@ -57,7 +57,11 @@ ATOMS = ["a", r"\.", r"\x41", ".", r"\d", r"\w", "[ab]", "[a-c]", r"[\w-]", "[^a
          # two DIFFERENT single-character negations in one pattern (and next to a class)
          "[^a][^b]", "[^b]x[^a]", "[^a][^ab][^b]", "[^a]+[^b]",
          # negated ranges that reach or pass the last letter of the generator's alphabet ('~')
-         r"[^a-~]", r"[^!-\xff]", r"[^#-\u04ff]"]
+         r"[^a-~]", r"[^!-\xff]", r"[^#-\u04ff]",
+         # negated ranges wider than the alphabet whose upper end is a printable character
+         r"[^\x00-z]", r"[^\t-y_]", r"[^\x00-A]",
+         # ranges inside / across the surrogate block (lone surrogates are strs like any other)
+         "[\ud800-\udbff]", "[\udc00-\udfff]", "[\ud7fe-\ud801]", "[\udffe-\ue001]"]
 QUANTS = ["", "?", "*", "+", "{2}", "{1,2}", "{2,}", "{33,}", "{0,44}", "*?", "+?", "??", "{1,2}?",
           "{0}", "{3,}?", "{33,}?", "{33,35}?"]
 UNSUPPORTED = [r"(?=a)", r"(?!b)", r"(?<=a)", r"(?<!b)", r"\s", r"\S", r"\D", r"\W", r"[\s]", r"[^\D]",
@@ -122,7 +126,7 @@ def supported_patterns(tier):
 
 # patterns with a single kind of metacharacter (what a hand-written "is this a plain literal?"
 # test is most likely to get wrong), and plain literals
-LITERALISH = ["ab", "ab{2}c", "0{3}", "-{2,4}", "id=7{2}5{,2}", "a b", "a-b_c", "a.b", "a|b", "ab?", "ab*",
+LITERALISH = ["[01]{2048}", "(ab){600}", "x{1025,}", "(\\w{20},){60}", "a{1024}", "a{1025}", "ab", "ab{2}c", "0{3}", "-{2,4}", "id=7{2}5{,2}", "a b", "a-b_c", "a.b", "a|b", "ab?", "ab*",
               "ab+", "a[b]c", "a(b)c", "a\\.b", "a\\{2\\}", "^ab", "ab$", "a{2", "a}b", "{a}", "a{,}b", "a,b",
               "\\d+\\$", "a\\$", "end\\\\$", "\\^a", "a\\^b", "\\$\\$", "a\\\\", "\\Aa\\$", "[$]$", "a\\Z", "x\\.y\\?",
               "é{2}", "a#b", "a b{2}", "x~y", "a=b&c", "a/b:c", "<a>", "\"a\"", "a'b", "a%sb", "a{0}b"]
